@@ -1446,13 +1446,35 @@ func ruleFilterErrorTable(c *chk.Ctx) {
 		}
 		return false
 	}
+	// (a result chosen into a local on earlier branches and returned at one shared exit is one
+	// way per choice, with the outcomes of its edge)
+	type retWay struct {
+		r     *ssa.Return
+		v     ssa.Value
+		conds []ir.Cond
+	}
+	var ways []retWay
 	for _, r := range sentinelReturns {
-		v := ir.ReturnResult(r, 0)
+		var expand func(v ssa.Value, conds []ir.Cond, depth int)
+		expand = func(v ssa.Value, conds []ir.Cond, depth int) {
+			if phi, isPhi := v.(*ssa.Phi); isPhi && depth < 4 {
+				for i, e := range phi.Edges {
+					pred := phi.Block().Preds[i]
+					expand(e, append(append([]ir.Cond{}, ir.CondsAt(pred)...), ir.EdgeConds(pred, phi.Block())...), depth+1)
+				}
+				return
+			}
+			ways = append(ways, retWay{r, v, conds})
+		}
+		expand(ir.ReturnResult(r, 0), ir.CondsAt(r.Block()), 0)
+	}
+	for _, w := range ways {
+		r, v := w.r, w.v
 		g := globalLoad(v)
 		if g == nil {
 			continue
 		}
-		for _, cd := range ir.CondsAt(r.Block()) {
+		for _, cd := range w.conds {
 			if bo, ok := cd.V.(*ssa.BinOp); ok && bo.Op == token.EQL && cd.Truth {
 				if k, isC := ir.ConstInt(bo.Y); isC {
 					back[g.Pkg.Pkg.Path()+"."+g.Name()] = k
